@@ -307,6 +307,54 @@ def fam_vectorization(seed=0, n=20, max_per_type=4):
     return out
 
 
+def fam_projections(seed=0, n=12, sizes=(4, 5, 6)):
+    """C01/C04: projections inside one group of structurally identical nodes, meant to be compiled with the matrix branch
+    (default matrix_sparseness) AND with the index branch forced (matrix_sparseness=1.0): one-to-one permutations
+    (incl. non-identity ones that fix the first and the last node), partial permutations, a ring with one extra edge
+    (two same-type inputs on one target), fan-out of one source, reversed order."""
+    rnd = random.Random(seed + 77)
+    out = []
+    pats = ['perm_fixed_ends', 'perm', 'ring_plus', 'partial', 'fanout', 'reverse', 'two_rings']
+    for k in range(n):
+        fp = FP()
+        ops = {'o1': op_two_inputs(fp)}
+        na = sizes[k % len(sizes)]
+        A = [f"a{i}" for i in range(na)]
+        nodes = {a: NodeSpec(['o1'], _node_overrides(fp, ops, ['o1'])) for a in A}
+        pat = pats[k % len(pats)]
+        pairs = []
+        if pat == 'perm_fixed_ends':
+            inner = list(range(1, na - 1))
+            while True:
+                sh = inner[:]
+                rnd.shuffle(sh)
+                if sh != inner:
+                    break
+            perm = [0] + sh + [na - 1]
+            pairs = [(i, perm[i], 'u') for i in range(na)]
+        elif pat == 'perm':
+            perm = list(range(na))
+            rnd.shuffle(perm)
+            pairs = [(i, perm[i], 'u') for i in range(na)]
+        elif pat == 'ring_plus':
+            pairs = [(i, (i + 1) % na, 'u') for i in range(na)] + [(na - 1, 1, 'u')]
+        elif pat == 'partial':
+            src = rnd.sample(range(na), na - 1)
+            tgt = rnd.sample(range(na), na - 1)
+            pairs = [(a, b, 'w') for a, b in zip(src, tgt)]
+        elif pat == 'fanout':
+            pairs = [(1, j, 'u') for j in range(na)]
+        elif pat == 'reverse':
+            pairs = [(i, na - 1 - i, 'w') for i in range(na)]
+        else:
+            pairs = [(i, (i + 1) % na, 'u') for i in range(na)] + [(i, (i - 1) % na, 'w') for i in range(na)]
+        edges = [EdgeSpec(f"a{i}/o1/x", f"a{j}/o1/{v}", fp()) for i, j, v in pairs]
+        out.append((f"FP:{seed}:{k}:{pat}:{na}",
+                    ModelSpec('m', ops, nodes, edges, note=f"projection pattern {pat} over {na} identical nodes: "
+                                                           f"{[(i, j) for i, j, _ in pairs]}")))
+    return out
+
+
 def fam_derived():
     """C15: operators derived through `base:` with equation edits; identifiers contain one another (r, rr, r_in,
     m_in2).  Returns (key, spec, derived_yaml) where the spec holds the operator the edits must produce when they act
